@@ -311,7 +311,7 @@ pub fn gen(rng: &mut Rng, tier: &str, dist: &mut Dist) -> Vec<String> {
                 let mut v = f.clone();
                 v[i] ^= 1 << bit;
                 dist.bump("xz.bitflip_exhaustive");
-                cmds.push(format!("xz_read {} 0 {} . {}", (i + bit) % 2, hex(&v), xz_kind(*check, d)));
+                cmds.push(format!("xz_read {} 0 {} . {} {}", (i + bit) % 2, hex(&v), cap_for(d.len()), xz_kind(*check, d)));
             }
         }
     }
@@ -325,7 +325,7 @@ pub fn gen(rng: &mut Rng, tier: &str, dist: &mut Dist) -> Vec<String> {
                 let mut v = f.clone();
                 v[i] ^= 1 << bit;
                 dist.bump("lzip.bitflip_exhaustive");
-                cmds.push(format!("lzip_read {} . corrupt:{}", hex(&v), hex(d)));
+                cmds.push(format!("lzip_read {} . {} corrupt:{}", hex(&v), cap_for(d.len()), hex(d)));
             }
         }
     }
@@ -352,7 +352,7 @@ pub fn gen(rng: &mut Rng, tier: &str, dist: &mut Dist) -> Vec<String> {
             if v == f {
                 continue;
             }
-            cmds.push(format!("xz_read {} 0 {} {} {}", rng.below(2), hex(&v), ints(&sizes), xz_kind(g.check, &d)));
+            cmds.push(format!("xz_read {} 0 {} {} {} {}", rng.below(2), hex(&v), ints(&sizes), cap_for(d.len()), xz_kind(g.check, &d)));
         } else {
             let g = gen_lzip(rng, i, 300, dist);
             let f = match g.write() { Outcome::Ok(f) => f, _ => continue };
@@ -382,7 +382,7 @@ pub fn gen(rng: &mut Rng, tier: &str, dist: &mut Dist) -> Vec<String> {
                 allowed.push(hex(&d[..acc]));
             }
             let kind = if members.len() <= 1 { format!("corrupt:{}", hex(&d)) } else { format!("oneof:{}", allowed.join(",")) };
-            cmds.push(format!("lzip_read {} {} {}", hex(&v), ints(&sizes), kind));
+            cmds.push(format!("lzip_read {} {} {} {}", hex(&v), ints(&sizes), cap_for(d.len()), kind));
         }
     }
     // ---- strings that are not the format at all ----
@@ -398,23 +398,23 @@ pub fn gen(rng: &mut Rng, tier: &str, dist: &mut Dist) -> Vec<String> {
                 let k = rng.range(1, 12) as usize;
                 v.splice(0..0, h[..k].iter().copied());
                 dist.bump("junk.xz_prefix");
-                cmds.push(format!("xz_read {} 0 {} {} corrupt:-", rng.below(2), hex(&v), ints(&sizes)));
+                cmds.push(format!("xz_read {} 0 {} {} 1024 corrupt:-", rng.below(2), hex(&v), ints(&sizes)));
             }
             1 => {
                 let h = [b'L', b'Z', b'I', b'P', 1, 0x0C];
                 let k = rng.range(1, 6) as usize;
                 v.splice(0..0, h[..k].iter().copied());
                 dist.bump("junk.lzip_prefix");
-                cmds.push(format!("lzip_read {} {} corrupt:-", hex(&v), ints(&sizes)));
+                cmds.push(format!("lzip_read {} {} 1024 corrupt:-", hex(&v), ints(&sizes)));
             }
             2 | 3 => {
                 dist.bump("junk.xz");
-                cmds.push(format!("xz_read {} 0 {} {} {}", rng.below(2), hex(&v), ints(&sizes), if v.is_empty() { "any" } else { "reject" }));
+                cmds.push(format!("xz_read {} 0 {} {} 1024 {}", rng.below(2), hex(&v), ints(&sizes), if v.is_empty() { "any" } else { "reject" }));
             }
             _ => {
                 dist.bump("junk.lzip");
                 // non-empty input that does not begin with the magic and a valid header: an error
-                cmds.push(format!("lzip_read {} {} {}", hex(&v), ints(&sizes), if v.is_empty() { "any" } else { "reject" }));
+                cmds.push(format!("lzip_read {} {} 1024 {}", hex(&v), ints(&sizes), if v.is_empty() { "any" } else { "reject" }));
             }
         }
     }
